@@ -9,9 +9,9 @@ CONSTANTS
  DevRateNonMonotone = FALSE
  DevNoTruncOnQuery = FALSE
  DevNoCap = FALSE
- DevHealthNotChecked <- OnlyFetch
+ DevHealthNotChecked <- None
  DevDegradedPasses = FALSE
- DevGateHoisted = FALSE
+ DevGateHoisted = TRUE
 INIT Init
 NEXT Next
 INVARIANTS C25_FunctionOfWindow C25_Monotone C25_Gate
